@@ -219,6 +219,44 @@ func main() {
 			c.Types = append(c.Types, t)
 		}
 	}
+	// Declarations that live in the derive package q0 ITSELF (types local to the package of the derive call;
+	// stage 2 imports q0 and the texts must spell them q0.Name): empty struct, struct with only blank fields,
+	// blank field between fields, ordinary / recursive struct, named slice / map / pointer / basic, and structs
+	// with unexported fields (accepted for local structs; outside the property: ops `gostringx`).
+	localSrc := map[string]string{"LBl": "struct {\n\t_ struct{}\n\t_ [0]int\n}"} // blanks only, zero size
+	var localTypes []*ty.Ty
+	{
+		b, f := ty.B, ty.F
+		addL := func(name string, u *ty.Ty, priv bool) int {
+			env.Decls = append(env.Decls, &ty.Decl{Name: name, Pkg: gs.LocalPkg, Under: u, Priv: priv})
+			return len(env.Decls) - 1
+		}
+		mark := addL("LMark", ty.St(), false)
+		bl := addL("LBl", ty.St(), false)
+		b2u := ty.St(f("A", b("int")), f("B", ty.P(b("string"))))
+		b2u.Blanks = map[int]string{1: "int32"}
+		b2 := addL("LB2", b2u, false)
+		ord := addL("LOrd", ty.St(f("A", b("int")), f("B", ty.Sl(b("string"))), f("M", ty.N(mark)), f("X", ty.N(nd))), false)
+		rec := addL("LRec", ty.St(f("V", b("int")), f("Next", ty.P(ty.N(len(env.Decls)))), f("E", ty.N(bl))), false)
+		lsl := addL("LSl", ty.Sl(ty.N(ord)), false)
+		lm := addL("LM", ty.M(b("string"), ty.N(mark)), false)
+		lp := addL("LP", ty.P(ty.N(ord)), false)
+		lni := addL("LNI", b("int"), false)
+		lu := addL("LU", ty.St(f("A", b("int")), f("b", b("string")), f("c", ty.P(b("int")))), true)
+		lur := addL("LUR", ty.St(f("V", b("int")), f("next", ty.P(ty.N(len(env.Decls))))), true)
+		localTypes = []*ty.Ty{
+			ty.N(mark), ty.P(ty.N(mark)), ty.Sl(ty.N(mark)), ty.Ar(2, ty.N(mark)), ty.M(b("int8"), ty.N(mark)), ty.M(ty.N(mark), b("int")),
+			ty.N(bl), ty.P(ty.N(bl)), ty.Sl(ty.N(bl)), ty.M(b("int"), ty.N(bl)), ty.N(b2), ty.P(ty.N(b2)), ty.Sl(ty.P(ty.N(b2))),
+			ty.N(ord), ty.P(ty.P(ty.N(ord))), ty.Sl(ty.P(ty.N(ord))), ty.M(b("string"), ty.P(ty.N(ord))), ty.N(rec), ty.P(ty.N(rec)), ty.Sl(ty.N(rec)),
+			ty.N(lsl), ty.P(ty.N(lsl)), ty.N(lm), ty.P(ty.N(lm)), ty.N(lp), ty.P(ty.N(lp)), ty.N(lni), ty.P(ty.N(lni)), ty.Sl(ty.N(lni)), ty.M(ty.N(lni), ty.N(lni)),
+			ty.St(f("M", ty.N(mark)), f("B", ty.N(bl)), f("K", ty.N(lm)), f("S", ty.Sl(ty.N(mark))), f("R", ty.Ar(2, ty.N(mark))), f("O", ty.N(ord)),
+				f("P", ty.N(lp)), f("L", ty.N(lsl)), f("N", ty.P(ty.N(lni))), f("X", ty.N(5)), f("Q", ty.P(ty.N(rec)))),
+			ty.P(ty.St(f("A", ty.N(mark)), f("B", ty.P(ty.N(mark))), f("C", ty.N(b2)))),
+			ty.N(lu), ty.P(ty.N(lu)), ty.Sl(ty.N(lu)), ty.N(lur), ty.P(ty.N(lur)), ty.M(b("string"), ty.N(lur)), ty.St(f("U", ty.N(lu)), f("R", ty.P(ty.N(lur)))),
+		}
+		// local types first: they must live in q0, the other types are spread around them
+		c.Types = append(append([]*ty.Ty{}, localTypes...), c.Types...)
+	}
 	extPkgs := []struct{ name, dir string }{{"ext", "ext"}, {"ext3", "ext3/v2"}, {"golib", "go-lib"}, {"gpkg", "gpkg"}}
 	extImports, extUses := "", ""
 	for _, e := range extPkgs {
@@ -283,7 +321,25 @@ func main() {
 	}
 	var qs []*strings.Builder
 	var qtypes [][]*ty.Ty
+	newQ := func() int {
+		sb := &strings.Builder{}
+		fmt.Fprintf(sb, "package q%d\n\nimport (\n%s\t\"corpus/p\"\n)\n\n%svar _ p.NI\n", len(qs), extImports, extUses)
+		qs = append(qs, sb)
+		qtypes = append(qtypes, nil)
+		return len(qs) - 1
+	}
+	newQ() // q0 declares the local types
+	for _, d := range env.Decls {
+		if d.Pkg == gs.LocalPkg {
+			src, ok := localSrc[d.Name]
+			if !ok {
+				src = d.Under.Go(env, gs.LocalPkg)
+			}
+			fmt.Fprintf(qs[0], "\ntype %s %s\n", d.Name, src)
+		}
+	}
 	pkgOf := func(t *ty.Ty) int {
+		local := gs.MentionsLocal(env, t)
 		for qi := range qs {
 			clash := false
 			for _, o := range qtypes[qi] {
@@ -296,18 +352,20 @@ func main() {
 				qtypes[qi] = append(qtypes[qi], t)
 				return qi
 			}
+			if local {
+				fmt.Fprintln(os.Stderr, "gengostring: local type clashes inside q0:", t.Wire())
+				os.Exit(2)
+			}
 		}
-		sb := &strings.Builder{}
-		fmt.Fprintf(sb, "package q%d\n\nimport (\n%s\t\"corpus/p\"\n)\n\n%svar _ p.NI\n", len(qs), extImports, extUses)
-		qs = append(qs, sb)
-		qtypes = append(qtypes, []*ty.Ty{t})
-		return len(qs) - 1
+		qi := newQ()
+		qtypes[qi] = append(qtypes[qi], t)
+		return qi
 	}
 
 	var prelude strings.Builder
 	for _, d := range env.Decls {
 		flags := ""
-		if d.Pkg != "" {
+		if d.Pkg != "" && d.Pkg != gs.LocalPkg {
 			flags += "e"
 		}
 		if d.Priv {
@@ -334,24 +392,32 @@ func main() {
 	vg := gen.NewVGen(env, rng, cap)
 	st := stats{}
 	id := 0
-	s2.WriteString("package main\n\nimport (\n\t\"reflect\"\n\n" + extImports + "\t\"corpus/p\"\n)\n\n" + extUses + "var _ p.NI\n\nvar types = map[string]reflect.Type{\n")
+	s2.WriteString("package main\n\nimport (\n\t\"reflect\"\n\n" + extImports + "\t\"corpus/p\"\n\t\"corpus/q0\"\n)\n\n" + extUses + "var _ p.NI\nvar _ q0.LMark\n\nvar types = map[string]reflect.Type{\n")
 	// the import block of the packages the check assembles from the returned texts: every type package
 	// under its DECLARED name (what `import "path"` binds)
-	write(filepath.Join(*out, "stage2", "header.txt"), "import (\n\t\"reflect\"\n\n"+extImports+"\t\"corpus/p\"\n)\n\n"+extUses+"var _ p.NI\n")
+	write(filepath.Join(*out, "stage2", "header.txt"), "import (\n\t\"reflect\"\n\n"+extImports+"\t\"corpus/p\"\n\t\"corpus/q0\"\n)\n\n"+extUses+"var _ p.NI\nvar _ q0.LMark\n")
 	nsup := 0
 	for i, t := range c.Types {
 		tn := fmt.Sprintf("T%d", i)
 		fmt.Fprintf(&prelude, "ty %s %s\n", tn, t.Wire())
-		if !gs.Supported(env, t) {
+		if !gs.SupportedX(env, t) {
 			st["unsupported"]++
 			continue
+		}
+		opname := "gostring"
+		if !gs.Supported(env, t) { // a local struct with unexported fields: outside the property, correspondence only
+			opname = "gostringx"
+			st["types_local_unexported"]++
+		}
+		if gs.MentionsLocal(env, t) {
+			st["types_local"]++
 		}
 		nsup++
 		gt := t.Go(env, "main")
 		qi := pkgOf(t)
-		fmt.Fprintf(qs[qi], "\nfunc GoString_%d(a %s) string { return deriveGoString_%d(a) }\n", i, gt, i)
+		fmt.Fprintf(qs[qi], "\nfunc GoString_%d(a %s) string { return deriveGoString_%d(a) }\n", i, t.Go(env, fmt.Sprintf("q%d", qi)), i)
 		fmt.Fprintf(&m, "\tt%d := reflect.TypeOf((*%s)(nil)).Elem()\n", i, gt)
-		fmt.Fprintf(&m, "\trt.Reg(\"gostring\", %q, func(c *rt.Ctx, a []*rt.SExp) string {\n\t\tx := c.Build(t%d, a[0]).Interface().(%s)\n\t\treturn hex.EncodeToString([]byte(q%d.GoString_%d(x)))\n\t})\n", tn, i, gt, qi, i)
+		fmt.Fprintf(&m, "\trt.Reg(\""+opname+"\", %q, func(c *rt.Ctx, a []*rt.SExp) string {\n\t\tx := c.Build(t%d, a[0]).Interface().(%s)\n\t\treturn hex.EncodeToString([]byte(q%d.GoString_%d(x)))\n\t})\n", tn, i, gt, qi, i)
 		fmt.Fprintf(&s2, "\t%q: reflect.TypeOf((*%s)(nil)).Elem(),\n", tn, gt)
 		st["head:"+kindName(env.Under(t).K)]++
 
@@ -401,7 +467,8 @@ func main() {
 		}
 		emit := func(x *ty.Val) {
 			id++
-			fmt.Fprintf(opsf, "op %d gostring %s %s\n", id, tn, x.Wire())
+			fmt.Fprintf(opsf, "op %d %s %s %s\n", id, opname, tn, x.Wire())
+			st["ops:"+opname]++
 			st.leaves(env, t, x)
 			if d := ptrDepth(x); d >= 2 {
 				st["ptr-chain>=2"]++
@@ -447,7 +514,6 @@ func main() { gs.Main2(types, fns(), os.Args[1], os.Args[2]) }
 	write(filepath.Join(*out, "go.mod"), fmt.Sprintf("module corpus\n\ngo 1.24\n\nrequire verifharness v0.0.0\n\nreplace verifharness => %s\n", *harness))
 
 	st["pkgs"] = len(qs)
-	st["ops:gostring"] = id
 	st["types_supported"] = nsup
 	var keys []string
 	for k := range st {
